@@ -69,3 +69,52 @@ func VH_C06_ray_prefilter_Q() {
 		vAssertI("C06.rayfilter.outside_hull_not_examined", vhC06RayCalls == 0)
 	}
 }
+
+// C06: the same pre-filter for elliptical arcs.  Centre, radii (rx >= ry > 0, the form ArcTo
+// stores), query point and the arc's end points are symbolic reals; the rotation is 0 or 90
+// degrees, where the ellipse's true extent is known without trigonometry (rx by ry, or ry by rx).
+// ellipseToCenter (trigonometric, not encodable) is replaced by a stand-in that returns the
+// symbolic centre - its contract, checked separately by VH_C08_ellipse_to_center - and the
+// line/ellipse intersection by a recorder.  Contract: whenever the ray's height lies within the
+// ellipse's true y-extent and the ray starts left of its right side, the intersection routine is
+// consulted with a ray from the query point that reaches beyond the ellipse.  (A filter that is
+// tighter than the bounding disk but still contains the rotated ellipse passes.)  Seed C06-f.
+var vhC06EC [4]float64
+
+func vhC06EllipseToCenter(x0, y0, rx, ry, phi float64, large, sweep bool, x1, y1 float64) (float64, float64, float64, float64) {
+	return vhC06EC[0], vhC06EC[1], vhC06EC[2], vhC06EC[3]
+}
+
+func vhC06LineEllipse(zs Intersections, l0, l1, center, radius Point, phi, theta0, theta1 float64) Intersections {
+	vhC06RayCalls++
+	vhC06RayA0, vhC06RayA1 = l0, l1
+	return zs
+}
+
+func VH_C06_ray_prefilter_arc_Q() {
+	vStub("!github.com/tdewolff/canvas.ellipseToCenter", vhC06EllipseToCenter)
+	vStub("!github.com/tdewolff/canvas.intersectionLineEllipse", vhC06LineEllipse)
+	rx, ry := vhReal(), vhReal()
+	vAssume(0 < ry && ry <= rx)
+	cx, cy := vhReal(), vhReal()
+	upright := vChoose(0, 1) == 1
+	phi, hx, hy := 0.0, rx, ry
+	if upright {
+		phi, hx, hy = 1.5707963267948966, ry, rx
+	}
+	vhC06EC = [4]float64{cx, cy, 0.0, 3.0}
+	sx, sy, ex, ey := vhReal(), vhReal(), vhReal(), vhReal()
+	p := &Path{}
+	p.d = append(p.d, MoveToCmd, sx, sy, MoveToCmd)
+	p.d = append(p.d, ArcToCmd, rx, ry, phi, float64(vChoose(0, 3)), ex, ey, ArcToCmd)
+	x, y := vhReal(), vhReal()
+	vhC06RayCalls = 0
+	_ = p.RayIntersections(x, y)
+	if cy-hy <= y && y <= cy+hy && x <= cx+hx {
+		vAssertI("C06.rayfilter.arc.ellipse_hit_is_examined", vhC06RayCalls == 1)
+		if vhC06RayCalls == 1 {
+			vAssertI("C06.rayfilter.arc.ray_from_query_point", vhPtEq(vhC06RayA0, Point{x, y}))
+			vAssertI("C06.rayfilter.arc.ray_reaches_beyond_ellipse", vhC06RayA1.X > cx+hx && vhC06RayA1.Y == y)
+		}
+	}
+}
